@@ -9,6 +9,8 @@ and validates the recorded answers of the real query functions.  spec/Editor.tla
     corpus programs) hover / dot / `::` are asked at every byte position, one column past every line end, and positions
     outside the text; the oracle is the typed AST of the compile path (pipeline::compile): for each variable use, binder,
     closure parameter and field read the identifier's positions must hover to exactly that type.
+  * keystroke states: every byte prefix of a text holding every lexical form (multi-line string lines, escapes, suffixed
+    numbers, comments, multi-byte characters), of the table program and of corpus programs -- where a token is half typed.
   * editing states: prefixes of the programs at token boundaries with something unfinished appended (`.`, `::`, partial
     identifier, open paren / brace / string, multi-byte text, backslashes) and the cursor at the end, before the unfinished
     part, at the start, in the middle, past the line end, past the text end, inside a multi-byte character.
@@ -157,6 +159,10 @@ def run(tier, rep):
     edits = ec.json_prints("EDIT")
     if len(edits) != ec.distinct or len(edits) < 20000:
         raise ToolError("Editor: unexpected number of editing states")
+    byte_edits = [e for e in edits if e["unit"] == "byte"]
+    edits = [e for e in edits if e["unit"] == "token"]
+    if len(byte_edits) < 3000:
+        raise ToolError("Editor: keystroke states missing")
     rnd.shuffle(edits)
     ebases = bases[:1] + bases[1:3] if quick else bases[:8]
     toks = gv("parse", [{"id": k, "text": t, "mode": "cst"} for k, (n, t) in enumerate(ebases)])
@@ -190,9 +196,28 @@ def run(tier, rep):
                 pos = line_col(tb, max(0, len(tb) - 1))
             ereqs.append({"id": len(ereqs), "text": t, "dir": memdir, "positions": [list(pos)], "limit_s": 120})
             emeta.append((name, e))
+    # keystroke states: every byte prefix (moved back to a character boundary) of the text of all lexical forms, of the
+    # declaration-table program and of corpus programs, cursor at the end / start / middle
+    tbases = [("typing", fam_c20.TYPING_TEXT)] + [(n, t) for n, t in bases if n.startswith("corpus:") and len(t.encode()) <= 1500][: (2 if quick else 40)]
+    if not quick:
+        tbases.append(bases[0])
+    for name, text in tbases:
+        b = text.encode()
+        for e in byte_edits:
+            cut = e["cut"]
+            if cut > len(b):
+                continue
+            while cut > 0 and cut < len(b) and (b[cut] & 0xC0) == 0x80:
+                cut -= 1
+            if cut != e["cut"] and e["cursor"] != "end":
+                continue
+            tb = b[:cut]
+            pos = line_col(tb, len(tb)) if e["cursor"] == "end" else ((0, 0) if e["cursor"] == "start" else line_col(tb, len(tb) // 2))
+            ereqs.append({"id": len(ereqs), "text": tb.decode(), "dir": memdir, "positions": [list(pos)], "limit_s": 120})
+            emeta.append((name, e))
     eres = gv_robust("query", ereqs)
     for q, (name, e), r in zip(ereqs, emeta, eres):
-        rid0 = f"edit:{name}:{e['cut']}:{e['pending']}:{e['cursor']}"
+        rid0 = f"edit:{name}:{e['unit']}:{e['cut']}:{e['pending']}:{e['cursor']}"
         if r.get("fatal") or r.get("verdict") == "abort":
             rec(rid0, "hover", "timeout" if r.get("fatal") == "timeout" else "panic", about={"edit": e, "base": name, "panic_at": r.get("at"), "msg": r.get("msg"), "text": q["text"]})
             continue
